@@ -25,6 +25,8 @@ TIERS = {
 }
 
 TOPICS = ('a', 'b', 'c', 'd', 'e', 'f', 'g', 'h')
+# "wide" runs: a property that lists every sensor of a robot (27-34 alternatives in one position)
+WIDE40 = tuple('/robot/sensor%d' % i for i in range(1, 41))
 ROS8 = ('/cmd_vel', 'ns/topic', '~priv', '/a/b2', 'odom_1', '/robot_0/scan', 'Topic', 'cmd_vel')
 BOUNDS = (None, None, 0, 1, 50, 100, 250, 1000, 2500, 0.5, 100.5, 1500, 70, 300, 33.3, 16.7, 1.5)
 
@@ -98,6 +100,8 @@ class PropGen12:
         self.acount = 0
         self.free = list(topics)
         self.used = []
+        self.wide = len(topics) >= 40
+        self.wide_skip = 1 if self.wide and sim.coin('wide_second', 0.4) else 0
 
     def take_topics(self, n):
         """Topics are distinct inside one event; across positions a topic is sometimes reused (legal:
@@ -145,7 +149,14 @@ class PropGen12:
         s = self.sim
         scope = s.pick('scope', gen.SCOPES)
         pattern = s.pick('pattern', gen.PATTERNS)
-        width = lambda: min(s.weighted('width', [(4, 1), (4, 2), (2, 3), (0.6, 4)]), max(1, len(self.free) - 1))  # noqa: E731
+        def width():
+            if self.wide:
+                if self.wide_skip:
+                    self.wide_skip -= 1
+                else:
+                    self.wide = False
+                    return s.randint('widew', 27, 34)
+            return min(s.weighted('width', [(4, 1), (4, 2), (2, 3), (0.6, 4)]), max(1, len(self.free) - 1))
         act = term = trig = None
         vis = []
         if scope in ('after', 'after_until'):
@@ -530,6 +541,9 @@ def run_one(seed, cfg, stats):
         stats[k] = stats.get(k, 0) + n
 
     topics = ROS8 if sim.coin('rostopics', 0.3) else TOPICS
+    if sim.coin('wide', 0.012):
+        topics = WIDE40
+        count('wide_properties')
     pdesc = PropGen12(sim, topics).prop()
     text = gen.render_property(pdesc)
     shape = (pdesc['scope'][0], pdesc['pattern'][0], len(topics_of(pdesc['pattern'][1])), len(topics_of(pdesc['pattern'][2])),
@@ -792,6 +806,7 @@ def main(argv):
         'generated_texts_rejected_by_parser': stats.get('generated_text_rejected_by_parser', 0),
         'shapes_with_both_verdicts_observed': both,
         'fault_kinds_fired': {k[6:]: v for k, v in sorted(stats.items()) if k.startswith('fault_')},
+        'properties_with_27_to_34_alternatives_in_one_event': stats.get('wide_properties', 0),
         'property_object_obtained_by': {k[9:]: v for k, v in sorted(stats.items()) if k.startswith('obtained_')},
         'caller_edits_of_an_earlier_result_before_a_second_call': {k[7:]: v for k, v in sorted(stats.items()) if k.startswith('recall_')},
         'distinct_fault_kind_sets_per_run': len(fault_sets),
